@@ -1002,3 +1002,45 @@ def ks5(P, C):
                 ("the reserved-name test is nested in `%s`: keys outside that branch are never tested" % f.render(f.nodes[nest[0]].get("cond", nest[0]))[:80] if nest else
                  "the reserved-name test is combined with other conditions (%s): it does not reject every reserved name" % f.render(f.nodes[g["node"]]["cond"])[:80])
         C.ob("KS-5", name, "reserved-test-unconditional", ok, where, det)
+
+
+def km5(P, C):
+    """KM-5: a stored key or value is never modified in place."""
+    C.rule("KM-5", "the key operations treat a stored key or value as immutable: in write_key and remove_key no character of `aux[i][k][..]` is "
+           "stored to, and no pointer to those characters is handed to a routine as a mutable `char*` (string::copy, strcpy, memcpy, an "
+           "algorithm's destination) — a value changes by installing a newly allocated, terminated string and releasing the old one. Writing "
+           "a shorter value into the old storage leaves the tail of the old value (no terminator is written), and every release passes "
+           "strlen()+1 of what is stored", floor=4)
+    n = 0
+    for f in [g for g in P.functions.values() if g.cls == ts.CLS and g.unit == "driver" and g.name in ("write_key", "remove_key")]:
+        name = ts.fshort(f)
+        bad = []
+        for i in f.walk():
+            ap = ts.assign_parts(f, i)
+            if ap:
+                r = ts.root_member(f, ap[0])
+                if r and r[0] == "aux" and r[1] >= 3:
+                    bad.append((i, "store"))
+                continue
+            cal = f.nodes[i].get("callee")
+            if not cal or cal["name"] in ("deallocate",):
+                continue
+            for a in f.args(i):
+                r = ts.root_member(f, a)
+                if not r or r[0] != "aux" or r[1] < 2:
+                    continue
+                # how the callee takes it: the type of the argument after the implicit conversions applied at the call
+                t = f.nodes[a].get("t", "") if f.k(a) in ("ImplicitCastExpr",) else f.nodes[f.strip(a, casts=False)].get("t", "")
+                if "char" in t and "const char" not in t:
+                    bad.append((i, "%s receives the stored string as `%s`" % (cal["name"], t)))
+            if f.k(i) == "CXXMemberCallExpr" and cal["name"] in ("copy",):
+                for a in f.args(i)[:1]:
+                    r = ts.root_member(f, a)
+                    if r and r[0] == "aux" and r[1] >= 2:
+                        bad.append((i, "std::string::copy writes into the stored string"))
+        n += 1
+        C.ob("KM-5", name, "stored-strings-immutable", not bad, f.loc(bad[0][0]) if bad else f.where(),
+             "no key operation writes into a stored key or value" if not bad else
+             "%s: %s — the stored string is modified in place; a shorter value keeps the tail of the old one" % (f.render(bad[0][0])[:80], bad[0][1]))
+    if n == 0:
+        raise core.AnalysisBroken("KM-5: write_key / remove_key not found")
